@@ -19,7 +19,8 @@ Common(ev, t) ==
   StateChecks(t)
   \o << <<"C09.epochs.ids-consecutive", \A i \in 1 .. NEp(t) : t.eps[i].id = i>>,
         <<"C09.epochs.single-asset", \A i \in 1 .. Len(ev.obs.eps) : ~ev.obs.eps[i].other>>,
-        <<"C18.grace.in-range-and-monotone", 1 <= t.grace /\ t.grace <= 30 /\ st.grace <= t.grace>> >>
+        <<"C18.grace.in-range-and-monotone", 1 <= ev.obs.grace /\ ev.obs.grace <= 30 /\ st.grace <= ev.obs.grace>>,
+        <<"C18.obs.grace-as-last-set", ev.obs.grace = t.grace>> >>
 
 Untouched(t) ==
   << <<"C09.rejected-or-unrelated.ledgers-unchanged",
@@ -64,7 +65,16 @@ EvChecks(ev, t) ==
                                 \o << <<"drift.claim.reward=floor(total*share)", ImplRewards(ev, t)>> >>
           ELSE Untouched(t)
      \* setasset: the owner switches the distribution asset; the ledgers of every asset stay as they are
-     [] ev.ev \in {"bond", "unbond", "tick", "setgrace", "setasset"} -> Untouched(t)
+     \* setgrace: the grace period in force is the one the last accepted update set (the specification's own: st.grace is
+     \* not re-read from the contract), within 1..30 and never lowered
+     [] ev.ev = "setgrace" ->
+          Untouched(t) \o
+          (IF ev.res = "ok"
+           THEN << <<"C18.setgrace.accepted-in-range-and-not-lowered",
+                      1 <= ToInt(ev.args.x) /\ ToInt(ev.args.x) <= 30 /\ st.grace <= ToInt(ev.args.x)>>,
+                   <<"C18.setgrace.stored-as-set", ev.obs.grace = ToInt(ev.args.x)>> >>
+           ELSE << <<"C18.setgrace.rejected-leaves-it", ev.obs.grace = st.grace>> >>)
+     [] ev.ev \in {"bond", "unbond", "tick", "setasset"} -> Untouched(t)
      [] OTHER -> << <<"TRACE.unknown-event", FALSE>> >>)
   \o Common(ev, t)
 
@@ -91,7 +101,8 @@ Next ==
                 newBondN == [u \in Users |->
                                IF ~ev.obs.bonded[u] THEN 0
                                ELSE IF st.bondT[u] = "none" THEN NEp(st) ELSE st.bondN[u]]
-                t == StOf(ev.obs, newPaid, newRolled, newBondT, newBondN)
+                t0 == StOf(ev.obs, newPaid, newRolled, newBondT, newBondN)
+                t == [t0 EXCEPT !.grace = IF ev.ev = "setgrace" /\ ev.res = "ok" THEN ToInt(ev.args.x) ELSE st.grace]
             IN Report(ev, Failed(EvChecks(ev, t))) /\ st' = t
   /\ l' = l + 1
 Spec == Init /\ [][Next]_vars
